@@ -97,3 +97,12 @@ Theorem C01_early_refusal_changes_nothing_two_namespaces : forall k s o s',
   nstep k s o = (s', NRefused) -> s' = s.
 Proof. exact AccountNsProofs.nrefused_unchanged. Qed.
 End AccountNsStatements.
+
+(* ---- what is mastered is what an independent reader finds: Model/Master.v (plain ISO9660; see Properties/C03.v for the
+   companion theorems and harness/props/masterleaf.py for the tie to the images pycdlib writes) *)
+From PV.Model Require Master.
+From PV.Proofs Require MasterProofs.
+Theorem C01_reader_recovers_the_mastered_tree : forall dt t, length dt = 7%nat -> Master.wf_tree t = true ->
+  exists img, Master.master dt t = Some img /\
+              Master.read (Master.fuel_for t) img (Master.root_extent t) (Master.root_len t) = Some (Master.view t).
+Proof. exact MasterProofs.read_master. Qed.
